@@ -202,6 +202,10 @@ def step (s : St) (toks : List String) : St × String :=
            (s, toString (Sif.Spec.C18.recipientsOK (hook == "epoch") pre ch))
          | _, _ => (s, "bad-op")
        | _, _ => (s, "bad-op"))
+  | "chk" :: "c01.exact" :: _tag :: budget :: obs =>
+      (match parseNat budget, parseDump obs with
+       | some b, some o => (s, toString (Sif.Spec.C01.exact o b))
+       | _, _ => (s, "bad-op"))
   | "chk" :: pred :: _tag :: obs =>
       match parseDump obs with
       | none => (s, "bad-op")
